@@ -33,6 +33,18 @@ WITNESSES = [
 ]
 
 
+# Directed corpus (runs first, judged like any generated history): sequences that need a specific
+# order to expose state kept between requests, e.g. "the gap window had history, then a reorg took
+# it away, then more addresses are requested" (kept after seeded change seeded/C12).
+DIRECTED = []
+for _g in (2, 3, 5):
+    _issue = ";".join(["new 1 0"] * _g)
+    DIRECTED.append("gap=%d;create;%s;pay 1:%d:std;new 1 0;observe;detach 1;empty;%s;observe;pay 1:%d:std;observe;%s;observe" %
+                    (_g, _issue, _g - 1, ";".join(["new 1 0"] * (_g + 1)), _g, ";".join(["new 1 0"] * 2)))
+    DIRECTED.append("gap=%d;create;%s;pay 1:%d:stk;new 1 1;detach 1;empty;new 1 1;new 1 0;restart;new 1 0;observe" %
+                    (_g, ";".join(["new 1 1"] * _g), _g - 1))
+
+
 def judge(c, mo, hist, tag, seed_note):
     """Evaluates the model driver's output; registers violations; returns statistics."""
     st = collections.Counter()
@@ -177,6 +189,20 @@ def main(tier, replay=None):
         else:
             wit[name] = "reproduced on the real wallet" if stw[want] else "NOT reproduced (the implementation no longer shows it)"
     c.log("witnesses:", wit)
+
+    # 1b. the directed corpus
+    ndirected = 0
+    for k, script in enumerate(DIRECTED):
+        p = os.path.join(c.workdir, "directed%d.txt" % k)
+        rc, o, e = V.sh([outs[0], "-script", script, "-out", p], timeout=120)
+        if rc != 0 or not os.path.exists(p):
+            return c.finish(TRUSTED, no_input_break="directed script %d failed to run: %s" % (k, (o + e)[-800:]))
+        rc, mo, me = V.sh("%s < %s" % (exe, p), timeout=120)
+        if rc != 0:
+            return c.finish(TRUSTED, no_input_break="model driver failed on directed script %d: %s" % (k, me[-800:]))
+        judge(c, mo, split_hist(V.read_lines(p)), "directed %d" % k, "/verif/build/bin/c12 -script '" + script + "'  # history %s")
+        ndirected += 1
+    c.coverage["directed_scripts"] = ndirected
 
     # 2. generated histories
     n = 128 if tier == "quick" else 1280
